@@ -1,12 +1,101 @@
 /- Drv/C04.lean — driver handler for property C04 (line protocol; core-only imports). -/
 import FunsorVerif.Core.Sexp
 import FunsorVerif.Core.XR
+import FunsorVerif.Model.TermParse
+import FunsorVerif.Model.C04
 namespace FV.Drv.C04
-open FV
+open FV FV.C04
 
-/-- `args` are the top-level S-expressions following the property tag on the request line. -/
+def parseIns (s : Sexp) : Option Inputs := do
+  let xs ← s.asList?
+  xs.mapM fun x => match x with
+    | Sexp.list [n, k] => do pure ((← n.asStr?), (← k.asNat?))
+    | _ => none
+
+/-- SVAL ::= (num n) | (var "x" size) | (slice "x" start stop step) | (tensor (("n" size)*) (n*)) -/
+def parseSVal : Sexp → Option SVal
+  | Sexp.list [Sexp.atom "num", n] => n.asNat?.map SVal.num
+  | Sexp.list [Sexp.atom "var", x, d] => do pure (SVal.var (← x.asStr?) (← d.asNat?))
+  | Sexp.list [Sexp.atom "slice", x, a, b, c] => do
+      pure (SVal.slice (← x.asStr?) (← a.asNat?) (← b.asNat?) (← c.asNat?))
+  | Sexp.list [Sexp.atom "tensor", ins, data] => do
+      let ins ← parseIns ins
+      let data ← data.asNats?
+      pure (SVal.tensor (NT.ofFlatNat ins data.toArray))
+  | _ => none
+
+def parseSigma (s : Sexp) : Option Sigma := do
+  let xs ← s.asList?
+  xs.mapM fun x => match x with
+    | Sexp.list [k, v] => do pure ((← k.asStr?), (← parseSVal v))
+    | _ => none
+
+def parseSubst (s : Sexp) : Option Subst := do
+  let xs ← s.asList?
+  xs.mapM fun x => match x with
+    | Sexp.list [k, v] => do pure ((← k.asStr?), (← parseTerm v))
+    | _ => none
+
+def ntToSexp (t : NT XR) : Sexp :=
+  Sexp.list [Sexp.atom "nt",
+    Sexp.list (t.inputs.map fun p => Sexp.list [Sexp.str p.1, Sexp.ofNat p.2]),
+    Sexp.ofNats t.shape,
+    Sexp.list (t.table.map XR.toSexp)]
+
+def slToSexp (s : Sl) : Sexp := Sexp.ofNats [s.start, s.stop, s.step, s.dtype, s.size]
+
+/--
+  C04 denote TERM (("n" size)*) ENV            the specification (shared `denote`)
+  C04 subst TERM SUBST (("n" size)*) ENV       `ok BOUNDFRESH TABLE`: table of `denote (substitute TERM SUBST)`
+  C04 ntsubs head|pre INS (shape) (data) SIGMA the model of Tensor.eager_subs: `ok (nt INS (shape) (data))`
+  C04 slice2 (a b s d) (a b s d)               Slice-into-Slice: `ok (head: start stop step dtype size) (pre: …)`
+  C04 catslice head|pre (sizes) start stop step  `ok (global positions) ((part (locals))…) (spec positions)`
+  C04 pyslice n start stop step                `range(n)[start:stop:step]`
+  C04 catlocate (sizes) n                      `ok (part local)` | `ok none`
+-/
 def handle (args : List Sexp) : String :=
   match args with
-  | _ => "err unimplemented"
+  | Sexp.atom "denote" :: rest => (handleDenote rest).getD "err bad-args"
+  | [Sexp.atom "subst", t, σ, ins, env] =>
+    match parseTerm t, parseSubst σ, parseIns ins, parseEnv env with
+    | some t, some σ, some ins, some env =>
+      let t' := substitute t σ
+      "ok " ++ toString (Sexp.ofBool (boundFresh t σ)) ++ " " ++ toString (tableToSexp (denoteTable t' ins env))
+    | _, _, _, _ => "err bad-args"
+  | [Sexp.atom "ntsubs", Sexp.atom mode, ins, shape, data, σ] =>
+    match parseIns ins, shape.asNats?, data.asList?.bind (·.mapM XR.ofSexp?), parseSigma σ with
+    | some ins, some shape, some data, some σ =>
+      let t := NT.ofFlat ins shape data.toArray
+      let r := if mode == "pre" then eagerSubsPre t σ else eagerSubs t σ
+      "ok " ++ toString (ntToSexp r)
+    | _, _, _, _ => "err bad-args"
+  | [Sexp.atom "slice2", o, i] =>
+    match o.asNats?, i.asNats? with
+    | some [a, b, s, d], some [a', b', s', d'] =>
+      let o := mkSlice a b s d
+      let i := mkSlice a' b' s' d'
+      "ok " ++ toString (slToSexp (sliceIntoSlice o i)) ++ " " ++ toString (slToSexp (sliceIntoSlicePre o i))
+    | _, _ => "err bad-args"
+  | [Sexp.atom "catslice", Sexp.atom mode, sizes, a, b, s] =>
+    match sizes.asNats?, a.asNat?, b.asNat?, s.asNat? with
+    | some sizes, some a, some b, some s =>
+      let pre := mode == "pre"
+      let parts := catSliceParts pre sizes a b s
+      "ok " ++ toString (Sexp.ofNats (catSliceGlobal pre sizes a b s)) ++ " " ++
+        toString (Sexp.list (parts.map fun p => Sexp.list [Sexp.ofNat p.1, Sexp.ofNats p.2])) ++ " " ++
+        toString (Sexp.ofNats (sliceGlobal (sizes.foldl (· + ·) 0) a b s))
+    | _, _, _, _ => "err bad-args"
+  | [Sexp.atom "pyslice", n, a, b, s] =>
+    match n.asNat?, a.asNat?, b.asNat?, s.asNat? with
+    | some n, some a, some b, some s => "ok " ++ toString (Sexp.ofNats (pySlice (List.range n) a b s))
+    | _, _, _, _ => "err bad-args"
+  | [Sexp.atom "catlocate", sizes, n] =>
+    match sizes.asNats?, n.asNat? with
+    | some sizes, some n =>
+      match catLocate sizes n 0 with
+      | some (k, l) => "ok " ++ toString (Sexp.ofNats [k, l])
+      | none => "ok none"
+    | _, _ => "err bad-args"
+  | _ => "err bad-request"
 
 end FV.Drv.C04
